@@ -60,6 +60,10 @@ var (
 	allTLDs     = append(genericTLDs, ccTLDs...)
 )
 
+// ErrEmailTooShort is returned when the value is too short to be replaced by a generated
+// "local@domain.tld" of the same length (the shortest one is "a@b.cc").
+var ErrEmailTooShort = errors.New("email value is too short to be tokenized")
+
 func randomEmail(buf []byte) error {
 	// If the buffer is really short, choose only among 2-letter country TLDs so that we have some space for other parts.
 	tlds := allTLDs
@@ -69,6 +73,10 @@ func randomEmail(buf []byte) error {
 	tld := []byte(tlds[seededRand.Int31n(int32(len(tlds)))])
 	// After we've chosen the TLD, fill the rest of the email with gibberish, and throw @ in there somewhere.
 	nonTLDlen := len(buf) - len(tld)
+	// Need room for at least one character before and after the @.
+	if nonTLDlen < 3 {
+		return ErrEmailTooShort
+	}
 	err := randomString(buf[:nonTLDlen])
 	if err != nil {
 		return err
